@@ -155,7 +155,9 @@ static bool newton_xy(const EllCfg& e, RLine<ld>& X, RLine<ld>& Y, ld& x, ld& y,
     if (std::fabs((double)Yw) < 1e-14) return false;
     ld dy = -Fw / Yw, dx = Fu + dy * Yu;
     ld m = std::max(std::fabs(dx), std::fabs(dy)); if (m > cap) { dx *= cap / m; dy *= cap / m; }
-    if (gap < 1e-3 && m < 1e-9L * e.a / gh::WGS84_A) { x += dx; y += dy; X.eval(x, PX, DX); Y.eval(y, PY, DY);
+    // converged when the step is at the noise floor of the long double reference (1e-11 m per half circuit) / sin(crossing angle)
+    const ld stol = 2e-9L * (e.a / gh::WGS84_A) * (1 + (std::fabs(x) + std::fabs(y)) / 2e7L) / std::max((ld)std::fabs((double)Yw), (ld)1e-12);
+    if (gap < 1e-3 && m < stol) { x += dx; y += dy; X.eval(x, PX, DX); Y.eval(y, PY, DY);
       gap = (double)std::sqrt((double)((PY[0] - PX[0]) * (PY[0] - PX[0]) + (PY[1] - PX[1]) * (PY[1] - PX[1]) + (PY[2] - PX[2]) * (PY[2] - PX[2]))); return gap < 1e-6 * e.a / gh::WGS84_A; }
     x += dx; y += dy;
   }
@@ -400,6 +402,11 @@ static void check_next(Ctx& c, EllCfg& e, double lat, double lon, double aziX, d
   J w = P.j().f("x", p.first).f("y", p.second).i("c", cc);
   if (!(vh::same_bits(p.first, p2.first) && vh::same_bits(p.second, p2.second) && cc == cc2)) c.viol("law:C17/intersect/Next/overloads-differ", cls, J(w).f("x2", p2.first).f("y2", p2.second));
   if (!member(c, P, "Next", p.first, p.second, true, w)) return;
+  if (c_from_tangents(P, 0, 0) != 0) {      // the two lines are tangent at the common point (a random pair can be coincident): c and membership only
+    c.event("Next: lines tangent at the common point, judged by membership and c only");
+    if (!c_ok(cc, c_from_tangents(P, p.first, p.second))) c.viol("oracle:C17/intersect/Next/coincidence-indicator", cls, w);
+    return;
+  }
   if (cc != 0) c.viol("oracle:C17/intersect/Next/coincidence-indicator-nonzero-for-crossing-lines", cls, w);
   if (L1(p.first, p.second) < 1e3 * e.a / gh::WGS84_A) { c.viol("oracle:C17/intersect/Next/returned-the-origin", cls, w); return; }
   double R = 1.25 * e.circ;
